@@ -37,6 +37,28 @@ start :: fn do
 end
 '''
 CLOSURES = [
+# a function that calls itself in tail position: every round is an activation of its own, closures made in one round keep that round's parameters
+("closures_over_parameters_of_a_tail_recursive_function", '''
+countdown :: fn n: int, acc: [fn -> int] -> [fn -> int] do
+    if n == 0 do
+        ret acc
+    end
+    acc -> list.push(fn -> int do ret n * 10 + ?m end)
+    ret countdown(n - 1, acc)
+end
+chain :: fn n: int, prev: fn -> int -> fn -> int do
+    if n == 0 do
+        ret prev
+    end
+    ret chain(n - 1, fn -> int do ret prev() + n end)
+end
+start :: fn do
+    fs :: countdown(3, [])
+    fs -> for_each(fn f: fn -> int do print(f()) end)
+    c :: chain(3, fn -> int do ret ?m end)
+    print(c())
+end
+''', {"m": (0, 3)}),
 # an assignment whose target is reached through a call that re-enters the same assignment statement: each activation stores ITS value
 ("assignment_through_a_recursive_call_in_the_target", '''
 Box :: blob {
